@@ -292,10 +292,8 @@ func extractToolCallData(tc interface{}) (*toolCallData, bool) {
 	index, _ := toolCall["index"].(float64)
 	toolIndex := int(index)
 
-	function, ok := toolCall["function"].(map[string]interface{})
-	if !ok {
-		return nil, false
-	}
+	// "function" is optional in a delta: a fragment may carry nothing but the call's id
+	function, _ := toolCall["function"].(map[string]interface{})
 
 	data := &toolCallData{
 		toolIndex: toolIndex,
